@@ -241,6 +241,9 @@ func runC10(c *Ctx) {
 	checkApplyTable(c)
 
 	checkLabelChange(c)
+	checkActorAndLabelOrder(c)
+	// the operations compiled are the operations staged, in that order (shared with C04)
+	checkAuthorSplit(c)
 }
 
 // isSameParam: v is the parameter p, or a load of the local cell p was spilled into (captured by a closure).
@@ -930,4 +933,91 @@ func checkEditCommentNoOpOnlyWithoutTarget(c *Ctx) {
 	}
 	c.Check(nAppend > 0 && n > 0 && bad == "", "R10.6", "EditCommentOperation.Apply:no-op-only-without-target", w.FnPos(fn), fmt.Sprintf("%d deciding branches, all tests of the target (nil / type)", n),
 		bad+": an edit of an existing comment is dropped depending on something else (its author, its text, the snapshot), so the compiled comment text and its history no longer follow the operations")
+}
+
+// R10.7: who becomes an actor / participant, and in which order a label change is applied.
+func checkActorAndLabelOrder(c *Ctx) {
+	w := c.W
+	c.Doc("R10.7", "in every Apply of package entities/bug the identity handed to Snapshot.addActor / addParticipant is the Author() of the operation being applied (not the bug's author or another identity of the snapshot); LabelChangeOperation.Apply applies the additions before the removals: no removal from the label set can be followed, in the same Apply, by an addition")
+	n := 0
+	for _, f := range w.ModFns {
+		if fnPkgPath(f) != modPath+"/entities/bug" || f.Name() != "Apply" || f.Signature.Recv() == nil || isInstance(f) || len(f.Blocks) == 0 {
+			continue
+		}
+		recv := f.Params[0]
+		for _, cl := range Calls(f) {
+			if cl.Name != "entities/bug.Snapshot.addActor" && cl.Name != "entities/bug.Snapshot.addParticipant" {
+				continue
+			}
+			n++
+			c.Sites++
+			args := cl.Args()
+			ok := false
+			if len(args) >= 1 {
+				for _, o := range origins(args[len(args)-1]) {
+					if o.Kind == "call" && strings.HasSuffix(o.Name, ".Author") {
+						if cv, isCall := o.Val.(*ssa.Call); isCall {
+							r := (&Call{Instr: cv}).Recv()
+							if r == ssa.Value(recv) {
+								ok = true
+							}
+							if fa, isFA := r.(*ssa.FieldAddr); isFA && fa.X == ssa.Value(recv) {
+								ok = true // the embedded OpBase of the receiver
+							}
+							for _, o2 := range origins(r) {
+								if o2.Kind == "param" && o2.Val == ssa.Value(recv) {
+									ok = true
+								}
+								if o2.Kind == "field" && o2.Val == ssa.Value(recv) {
+									ok = true // embedded OpBase of the receiver
+								}
+							}
+						}
+					}
+				}
+			}
+			_, short := lastDot(cl.Name)
+			c.Check(ok, "R10.7", strings.TrimPrefix(funcName(f), "entities/bug.")+":"+short+"-of-the-operation-author", w.InstrPos(cl.Instr), "the operation's own author",
+				"the identity recorded by "+short+" is not the author of the operation being applied: whoever made this change is missing from the actors/participants (and somebody else may be listed instead)")
+		}
+	}
+	c.Check(n >= 6, "R10.7", "expected:actor-sites", "entities/bug", fmt.Sprintf("%d addActor/addParticipant calls", n), fmt.Sprintf("only %d addActor/addParticipant calls found in Apply methods (reference 7)", n))
+	// label change: additions, then removals
+	lc := w.Method("entities/bug", "LabelChangeOperation", "Apply")
+	if lc == nil {
+		c.Undecided("R10.7", "anchor:LabelChangeOperation.Apply", "entities/bug", "not found")
+		return
+	}
+	var adds, removes []ssa.Instruction
+	for _, b := range lc.Blocks {
+		for _, ins := range b.Instrs {
+			st, ok := ins.(*ssa.Store)
+			if !ok {
+				continue
+			}
+			fa, ok := st.Addr.(*ssa.FieldAddr)
+			if !ok || fieldName(fa) != "Labels" {
+				continue
+			}
+			switch v := st.Val.(type) {
+			case *ssa.Call:
+				if bi, isB := v.Common().Value.(*ssa.Builtin); isB && bi.Name() == "append" {
+					adds = append(adds, st)
+				}
+			case *ssa.Slice:
+				removes = append(removes, st) // Labels = Labels[:len-1]
+			}
+		}
+	}
+	c.Sites += len(adds) + len(removes)
+	bad := ""
+	for _, r := range removes {
+		for _, a := range adds {
+			a := a
+			if reach, _, _ := pathSearch(lc, r, nil, func(i ssa.Instruction) bool { return i == a }, nil, false); reach {
+				bad = "the addition at " + w.InstrPos(a) + " can follow the removal at " + w.InstrPos(r)
+			}
+		}
+	}
+	c.Check(len(adds) > 0 && len(removes) > 0 && bad == "", "R10.7", "LabelChangeOperation.Apply:additions-before-removals", w.FnPos(lc), "no addition after a removal", bad+": a label named on both sides of one change ends up set, where 'additions, then removals' leaves it absent — replicas applying the documented order compile another label set")
 }
